@@ -86,7 +86,7 @@ let do_pw line =
     | _ -> failwith "bad PW header" in
   let isw = (pk = "W") in
   let c = { kind = (if isw then VFifoWait else if op = "w" then VPopWait else VTimedWait);
-            from_tail = tail;
+            from_tail = (tail && pk = "R");   (* fifo.c ignores the context *)
             secs = (if isw then Z0 else if op = "w" then z_of_int secs else zt secs) } in
   let steps = List.map words (split_on ',' script) in
   let ninit, steps = match steps with
